@@ -3,6 +3,7 @@ package bsonkit
 import (
 	"bytes"
 	"math"
+	"math/big"
 	"strings"
 
 	"github.com/shopspring/decimal"
@@ -55,6 +56,19 @@ func Compare(lv, rv interface{}) int {
 }
 
 func compareNumbers(lv, rv interface{}) int {
+	// order non-finite numbers of any type consistently: NaN is the smallest
+	// number (and equal to any other NaN), followed by -Inf, all finite
+	// numbers and +Inf
+	lk, rk := numberKind(lv), numberKind(rv)
+	if lk != 0 || rk != 0 {
+		if lk == rk {
+			return 0
+		} else if lk < rk {
+			return -1
+		}
+		return 1
+	}
+
 	switch l := lv.(type) {
 	case float64:
 		switch r := rv.(type) {
@@ -65,10 +79,9 @@ func compareNumbers(lv, rv interface{}) int {
 		case int64:
 			return compareFloat64ToInt64(l, r)
 		case primitive.Decimal128:
-			// safeFloatToDec guards against float64 NaN/±Inf, which would
-			// otherwise panic decimal.NewFromFloat (collapses to zero —
-			// non-finite ordering is a known imprecision, see math.go TODO)
-			return safeFloatToDec(l).Cmp(safeD128ToDec(r))
+			// non-finite numbers have been handled above; the float is
+			// converted exactly to compare by mathematical value
+			return exactFloatToDec(l).Cmp(safeD128ToDec(r))
 		}
 	case int32:
 		switch r := rv.(type) {
@@ -95,7 +108,7 @@ func compareNumbers(lv, rv interface{}) int {
 	case primitive.Decimal128:
 		switch r := rv.(type) {
 		case float64:
-			return safeD128ToDec(l).Cmp(safeFloatToDec(r))
+			return safeD128ToDec(l).Cmp(exactFloatToDec(r))
 		case int32:
 			return safeD128ToDec(l).Cmp(decimal.NewFromInt32(r))
 		case int64:
@@ -106,6 +119,48 @@ func compareNumbers(lv, rv interface{}) int {
 	}
 
 	panic("bsonkit: unreachable")
+}
+
+// numberKind classifies a number as NaN (-2), -Inf (-1), finite (0) or
+// +Inf (1).
+func numberKind(v interface{}) int {
+	switch n := v.(type) {
+	case float64:
+		if math.IsNaN(n) {
+			return -2
+		} else if math.IsInf(n, -1) {
+			return -1
+		} else if math.IsInf(n, 1) {
+			return 1
+		}
+	case primitive.Decimal128:
+		if n.IsNaN() {
+			return -2
+		}
+		return n.IsInf()
+	}
+
+	return 0
+}
+
+// exactFloatToDec converts a finite float64 to a decimal with exactly the
+// same mathematical value (decimal.NewFromFloat would round to the shortest
+// representation, which makes comparisons with decimals inexact).
+func exactFloatToDec(f float64) decimal.Decimal {
+	// decompose f = m * 2^exp with a 53 bit integer mantissa
+	frac, exp := math.Frexp(f)
+	m := big.NewInt(int64(math.Ldexp(frac, 53)))
+	exp -= 53
+
+	// handle integers
+	if exp >= 0 {
+		return decimal.NewFromBigInt(m.Lsh(m, uint(exp)), 0)
+	}
+
+	// use 2^-k = 5^k * 10^-k for fractions
+	five := new(big.Int).Exp(big.NewInt(5), big.NewInt(int64(-exp)), nil)
+
+	return decimal.NewFromBigInt(m.Mul(m, five), int32(exp))
 }
 
 func compareStrings(lv, rv interface{}) int {
